@@ -576,6 +576,123 @@ theorem progress (f : α → β) (prog0 : List (Op α)) (st : State α β) (h : 
       simp [slaveStep] at hs
     exact ⟨s, by simpa [step, hs0] using hs⟩
 
+/-! ### collection in submission order never raises -/
+
+/-- static check of a master program against the list of pending ids: ids submitted are
+not pending, every `get_result(id)` asks for the oldest pending id -/
+def inOrder : List Nat → List (Op α) → Bool
+  | _, [] => true
+  | pend, .submit id _ _ _ :: r => !pend.contains id && inOrder (pend ++ [id]) r
+  | pend, .get id :: r =>
+    (match pend with
+     | h :: t => h == id && inOrder t r
+     | [] => false)
+  | pend, .getNext :: r =>
+    (match pend with
+     | _ :: t => inOrder t r
+     | [] => inOrder [] r)
+
+theorem getStep_oldest (f : α → β) (prog0 : List (Op α)) (st st' : State α β) (x : Nat × α)
+    (q' : List (Nat × α)) (rest : List (Op α)) (h : Inv f prog0 st) (hfin : st.finished = false)
+    (hq : st.queue = x :: q') (hstep : getStep st x.1 rest = some st') :
+    st'.err = st.err ∧ st'.queue = q' ∧ st'.prog = rest := by
+  have hav : st.available = true := by rw [h.avail, hfin]; rfl
+  have hsome : (lookup x.1 st.assigned).isSome = true := by
+    rw [h.K, hq]; simp [lookup]
+  obtain ⟨src, hsrc⟩ := Option.isSome_iff_exists.mp hsome
+  have hG := h.G src
+  rw [hq] at hG
+  simp only [List.filter_cons, hsrc, beq_self_eq_true, if_true] at hG
+  unfold getStep at hstep
+  rw [hsrc] at hstep
+  simp only [hav, if_true, hG] at hstep
+  split at hstep
+  · rename_i hne; exact absurd rfl hne
+  · split at hstep
+    · cases hstep
+    · cases hstep
+      simp [doGet, hq, eraseId]
+
+theorem inOrder_step (f : α → β) (prog0 : List (Op α)) (st st' : State α β) (c : Nat)
+    (h : Inv f prog0 st) (herr : st.err = none)
+    (hio : inOrder (st.queue.map (·.1)) st.prog = true) (hstep : step f st c = some st') :
+    st'.err = none ∧ inOrder (st'.queue.map (·.1)) st'.prog = true := by
+  unfold step at hstep
+  split at hstep
+  · unfold masterStep at hstep
+    split at hstep
+    · cases hstep
+    · rename_i hguard
+      have hfin : st.finished = false := by
+        cases hf : st.finished with
+        | false => rfl
+        | true => exact absurd (Or.inl hf) hguard
+      have hav : st.available = true := by rw [h.avail, hfin]; rfl
+      split at hstep
+      · rename_i hprog
+        cases hstep
+        simp [doTerminate, herr, hprog, inOrder]
+      · rename_i id p e sl rest hprog
+        rw [hprog] at hio
+        simp only [inOrder, Bool.and_eq_true, Bool.not_eq_true'] at hio
+        have hnew : (lookup id st.assigned).isSome = false := by
+          rw [h.K]
+          cases hl : (lookup id st.queue).isSome with
+          | false => rfl
+          | true =>
+            have := (lookup_isSome_iff id st.queue).mp hl
+            have hc : (st.queue.map (·.1)).contains id = true := by simpa using this
+            rw [hc] at hio; simp at hio
+        simp only [hnew, hav, if_true] at hstep
+        simp only [Bool.false_eq_true, if_false] at hstep
+        cases hstep
+        simp [doSubmit, herr, hio.2]
+      · rename_i id rest hprog
+        rw [hprog] at hio
+        cases hq : st.queue with
+        | nil => rw [hq] at hio; simp [inOrder] at hio
+        | cons x q' =>
+          rw [hq] at hio
+          simp only [List.map_cons, inOrder, Bool.and_eq_true, beq_iff_eq] at hio
+          rw [← hio.1] at hstep
+          obtain ⟨h1, h2, h3⟩ := getStep_oldest f prog0 st st' x q' rest h hfin hq hstep
+          rw [h1, h2, h3]
+          exact ⟨herr, hio.2⟩
+      · rename_i rest hprog
+        rw [hprog] at hio
+        split at hstep
+        · rename_i hq
+          cases hstep
+          rw [hq] at hio
+          simpa [inOrder, herr, hq] using hio
+        · rename_i x q' hq
+          rw [hq] at hio
+          simp only [List.map_cons, inOrder] at hio
+          obtain ⟨h1, h2, h3⟩ := getStep_oldest f prog0 st st' x q' rest h hfin hq hstep
+          rw [h1, h2, h3]
+          exact ⟨herr, hio⟩
+  · unfold slaveStep at hstep
+    split at hstep
+    · cases hstep
+    · split at hstep
+      · cases hstep
+      · cases hstep; simpa [doStop, herr] using hio
+      · cases hstep; simpa [doCall, herr] using hio
+
+theorem inOrder_run (f : α → β) (prog0 : List (Op α)) (cs : List Nat) (st : State α β)
+    (h : Inv f prog0 st) (herr : st.err = none)
+    (hio : inOrder (st.queue.map (·.1)) st.prog = true) : (run f st cs).err = none := by
+  unfold run
+  induction cs generalizing st with
+  | nil => simpa [runSched] using herr
+  | cons c t ih =>
+    simp only [runSched]
+    split
+    · exact ih st h herr hio
+    · rename_i st' hst
+      obtain ⟨e', io'⟩ := inOrder_step f prog0 st st' c h herr hio hst
+      exact ih st' (inv_step f prog0 st st' c h hst) e' io'
+
 /-! ### the single-process mode (`mpi.available == False`) -/
 
 structure SInv (f : α → β) (prog0 : List (Op α)) (st : State α β) : Prop where
